@@ -10,7 +10,9 @@ import (
 	"github.com/bytom/bytom/protocol/bc/types"
 )
 
-// C04: encoding round-trips every well-formed ledger value.
+// C04: encoding round-trips every well-formed ledger value (asset version 1 inputs of all four
+// kinds with arbitrary suffixes incl. the spend/veto commitment suffix; outputs of both kinds and of
+// unknown asset versions).
 //   op line:   tx|txd|hdr|blk <hex text>      (what MarshalText of a generated value produced)
 //   impl line: ok <dump of the decoded value> re=<= | re-encoding when it differs>   |  err <class> | panic
 // Direct oracle (implementation alone): decode(encode v) == v (nil == empty, SerializedSize ==
@@ -193,11 +195,6 @@ func oracleBlock(c *Ctx, blk *types.Block, flag int) (text []byte) {
 		return nil
 	}
 	text = b
-	for _, t := range blk.Transactions {
-		if hasSCSuffix(&t.TxData) {
-			return // covered (and attributed) by the tx oracle
-		}
-	}
 	var back types.Block
 	if err := back.UnmarshalText(b); err != nil {
 		failLimited(c, "blk-decode-of-own-encoding-fails", short(err.Error()))
@@ -287,10 +284,10 @@ func runC04(c *Ctx) {
 		switch k := c.Rng.Intn(10); {
 		case k < 6:
 			kind = "tx"
-			g.allowBadAV, g.allowSCSuffix = false, c.Rng.Intn(20) == 0
+			g.allowBadAV, g.allowBadAVIn, g.allowSCSuffix = c.Rng.Intn(4) == 0, false, true
 			if k == 5 {
 				kind = "txd"
-				g.allowBadAV, g.allowSCSuffix = true, false
+				g.allowBadAV = true
 			}
 			v := g.txData()
 			text, _ = v.MarshalText()
@@ -302,7 +299,7 @@ func runC04(c *Ctx) {
 			oracle = func() { oracleHeader(c, v) }
 		default:
 			kind = "blk"
-			g.allowBadAV, g.allowSCSuffix = false, false
+			g.allowBadAV, g.allowBadAVIn, g.allowSCSuffix = c.Rng.Intn(3) == 0, false, true
 			flag := []int{types.SerBlockFull, types.SerBlockFull, types.SerBlockHeader, types.SerBlockTransactions}[c.Rng.Intn(4)]
 			c.Count(fmt.Sprintf("blk:flag=%d", flag))
 			v := g.block()
